@@ -919,9 +919,10 @@ class Mps(MatrixProduct):
             self.ensure_left_canonical()
 
         # `self` should not be modified during the evolution
-        if imag_time:
+        if imag_time and not mpo.is_complex:
             mps = self.copy()
         else:
+            # real time, or a complex Hamiltonian: the state leaves the reals
             mps = self.to_complex()
 
         # the quantum number symmetry is used
@@ -1125,9 +1126,10 @@ class Mps(MatrixProduct):
         # `self` should not be modified during the evolution
         # mps: the mps to return
         # environ_mps: mps to construct environ
-        if imag_time:
+        if imag_time and not mpo.is_complex:
             mps = self.copy()
         else:
+            # real time, or a complex Hamiltonian: the state leaves the reals
             mps = self.to_complex()
 
         if self.evolve_config.tdvp_cmf_midpoint:
@@ -1274,7 +1276,8 @@ class Mps(MatrixProduct):
         # TDVP projector splitting
         # one-site
         if np.iscomplex(evolve_dt):
-            mps = self.copy()
+            # a complex Hamiltonian takes a real state out of the reals
+            mps = self.to_complex() if mpo.is_complex else self.copy()
             if self.evolve_config.ivp_solver != "krylov":
                 evolve_dt = -evolve_dt.imag
                 # used in calculating derivatives
@@ -1413,7 +1416,8 @@ class Mps(MatrixProduct):
         # TDVP projector splitting
         # two-site
         if np.iscomplex(evolve_dt):
-            mps = self.copy()
+            # a complex Hamiltonian takes a real state out of the reals
+            mps = self.to_complex() if mpo.is_complex else self.copy()
             if self.evolve_config.ivp_solver != "krylov":
                 evolve_dt = -evolve_dt.imag
                 # used in calculating derivatives
